@@ -84,6 +84,20 @@ fn main() {
             let path = args.get(1).unwrap_or_else(|| usage());
             std::process::exit(driver::replay_file(&props, Path::new(path)));
         }
+        "shard" => {
+            // shard <C10|C11> <tier> <total> <k> <shards> <out-file>   (internal)
+            let id = args.get(1).map(String::as_str).unwrap_or_else(|| usage());
+            let tier = args.get(2).cloned().unwrap_or_else(|| usage());
+            let total: usize = args.get(3).and_then(|v| v.parse().ok()).unwrap_or_else(|| usage());
+            let k: usize = args.get(4).and_then(|v| v.parse().ok()).unwrap_or_else(|| usage());
+            let shards: usize = args.get(5).and_then(|v| v.parse().ok()).unwrap_or_else(|| usage());
+            let out = args.get(6).unwrap_or_else(|| usage());
+            let prop = match props.iter().find(|p| p.id() == id) {
+                Some(p) => *p,
+                None => usage(),
+            };
+            std::process::exit(driver::run_shard(prop, &tier, seed, total, k, shards, Path::new(out)));
+        }
         "calibrate" => {
             let default = driver::verif_dir().join("calibration.json");
             let path = args.get(1).map(std::path::PathBuf::from).unwrap_or(default);
